@@ -22,6 +22,7 @@ type callRec struct {
 	err, cond  string
 	text       string
 	reqID      string
+	toAddr     string // where the request went (the address given to the call unless the wire says otherwise)
 	reqTyp     string
 	haveReq    bool
 	candidates []int // indexes into presences
@@ -68,18 +69,24 @@ func judge(c *core.Case, mc *muCase, d *driver, log []event) {
 				b.tDone = e.T
 			}
 		case "seen":
-			seen[e.Addr] = append(seen[e.Addr], e)
+			seen[e.ID] = append(seen[e.ID], e)
 		}
 	}
 	// every request carries the id "call<n>"
 	perAddr := map[string][]*callRec{}
+	renamed := map[string]bool{}
 	for _, r := range order {
 		perAddr[r.addr] = append(perAddr[r.addr], r)
 		r.reqID = fmt.Sprintf("call%d", r.n)
-		for _, e := range seen[r.addr] {
-			if e.ID == r.reqID {
-				r.reqTyp, r.haveReq = e.Typ, true
-			}
+		r.toAddr = r.addr
+		for _, e := range seen[r.reqID] {
+			r.reqTyp, r.haveReq, r.toAddr = e.Typ, true, e.Addr
+		}
+		if r.toAddr != r.addr {
+			// the library sent the request to another nick: the occupant may be
+			// known to the room under that address from then on, which this
+			// model of one fixed address does not follow
+			renamed[r.addr] = true
 		}
 	}
 	// processedBefore: a barrier sent after t was answered before u
@@ -113,7 +120,7 @@ func judge(c *core.Case, mc *muCase, d *driver, log []event) {
 			for i, p := range pres {
 				// (a Leave may rightly return because the occupant is out already: any
 				// unavailable self-presence sent before the return will do)
-				if p.self && p.addr == r.addr && p.typ == wantTyp && p.t < r.tRet && (kind == "leave" || !processedBefore(p.t, r.tCall)) {
+				if p.self && (p.addr == r.addr || p.addr == r.toAddr) && p.typ == wantTyp && p.t < r.tRet && (kind == "leave" || !processedBefore(p.t, r.tCall)) {
 					r.candidates = append(r.candidates, i)
 				}
 			}
@@ -128,7 +135,7 @@ func judge(c *core.Case, mc *muCase, d *driver, log []event) {
 		case "stanza":
 			found, wrong := false, ""
 			for _, p := range pres {
-				if p.typ == "error" && p.addr == r.addr && r.haveReq && p.id == r.reqID && p.t < r.tRet {
+				if p.typ == "error" && r.haveReq && p.id == r.reqID && p.t < r.tRet {
 					if p.cond == r.cond {
 						found = true
 					} else {
@@ -182,7 +189,12 @@ func judge(c *core.Case, mc *muCase, d *driver, log []event) {
 
 	// ---- Joined() at barriers
 	for _, e := range log {
-		if e.Ev != "joined?" {
+		if e.Ev != "joined?" && e.Ev != "joined-old?" {
+			continue
+		}
+		old := e.Ev == "joined-old?"
+		if renamed[e.Addr] {
+			c.Count("joined_samples_skipped", 1)
 			continue
 		}
 		b := bars[e.K]
@@ -196,7 +208,11 @@ func judge(c *core.Case, mc *muCase, d *driver, log []event) {
 		nOK := 0
 		for _, r := range perAddr[a] {
 			if r.tCall < e.T && (r.tRet == 0 || r.tRet > b.tSend) {
-				open = true
+				// (a fresh Client.Join in flight can only ever make its own, not
+				// yet returned, channel joined: replaced channels stay decidable)
+				if !(old && r.op == "join") {
+					open = true
+				}
 			}
 			if r.op != "leave" && r.err == "nil" && r.tRet != 0 && r.tRet < b.tSend {
 				nOK++
@@ -255,6 +271,15 @@ func judge(c *core.Case, mc *muCase, d *driver, log []event) {
 					}
 				}
 			}
+		}
+		if old {
+			if want == "false" {
+				c.Count("replaced_channels_sampled_while_out", 1)
+				if e.Val != "false" {
+					c.Violate("muc:joined:true-while-out", "barrier %d: the occupant %s is out (its unavailable presence was processed and no join has succeeded since), yet channel #%d returned for that address by an earlier Client.Join reports Joined() = true\n%s", e.K, a, e.Call, around(log, 0, e.T))
+				}
+			}
+			continue
 		}
 		switch {
 		case want == "":
